@@ -57,14 +57,14 @@ def _probe(p, pool):
 
 
 def _case(c, index, pool):
-    comp = "comp_%d" % index[c["component"]]
+    comp = "(ctable comp_%d)" % index[c["component"]] if c["component"] in index else "(validators_table all_validators)"
     variant = "AssignAll" if c["variant"] == "all" else "AssignEnforced"
     user = g.lst(["(%s, %s)" % (pool.s(kv["k"]), _value(kv["v"], pool)) for kv in c["user"]])
     readable = g.lst([pool.s(s) for s in c["readable"]])
     errkeys = "None" if "errkeys" not in c else "(Some %s)" % g.lst([pool.s(s) for s in c["errkeys"]])
     unsup = g.lst([pool.s(s) for s in c["unsupported"]])
     probes = g.lst(["(%s, %s, %s)" % (pool.s(p["k"]), g.b(p["has"]), _probe(p["g"], pool)) for p in c["probes"]])
-    return "mkCase (ctable %s) %s %s %s %s %s %s %s" % (comp, variant, user, readable, g.n_(c["nerr"]), errkeys, unsup, probes)
+    return "mkCase %s %s %s %s %s %s %s %s" % (comp, variant, user, readable, g.n_(c["nerr"]), errkeys, unsup, probes)
 
 
 OBL = g.HEADER + """From Crem Require Import Base.Res Base.Fl Params ParamsProofs.
@@ -137,7 +137,17 @@ def run(ctx):
     specs_v, facts_path = _translate(ctx)
     ctx.check_theorems("Properties/C18.v")
     if specs_v is None:
-        ctx.notes.append("translator failed: no tables, no correspondence in this run")
+        # Search only: drive the implementation-side oracle with the facts of the last accepted tree
+        # (tools/props/C18.facts.baseline.json = what the specification WAS); no tables, no correspondence.
+        ctx.notes.append("translator failed: no regenerated tables and no correspondence in this run; the oracle was run "
+                         "against the committed baseline facts (the specification as it was when this check was built)")
+        base = os.path.join(check.VERIF, "tools", "props", "C18.facts.baseline.json")
+        lines = ctx.run_harness("C18", [ctx.tier], extra_env={"VERIF_C18_FACTS": base}, allow_fail=True)
+        for l in lines:
+            if l.get("kind") == "oracle":
+                ctx.failing_inputs.append(l)
+            elif l.get("kind") == "stat":
+                ctx.stats = l["stats"]
         return
     facts = json.load(open(facts_path))
     comps = facts["components"]
@@ -170,6 +180,8 @@ def run(ctx):
             ctx.oblige("harness covers component " + l["component"], False,
                        "the translator found a specification table the harness has no driver for")
             ctx.broken.append("component %s found in the source is not driven by harness/c18.go" % l["component"])
+        elif k == "validators":
+            ctx.coverage["validators_exercised_directly"] = l["direct"]
         elif k == "covered":
             ctx.oblige("harness covers all %d components found in the source" % len(comps), len(l["components"]) == len(comps))
     nshards = 0
